@@ -67,6 +67,12 @@ class OneOf(SigT):
         return out
 
 
+class TupleOf(SigT):
+    def __init__(self, *elts):
+        self.elts = elts
+        self.name = "Tuple(" + ",".join(e.name for e in elts) + ")"
+
+
 class Opaque(SigT):
     """A value of a real Python type whose content is abstract (type-dispatch proofs)."""
 
